@@ -10,7 +10,7 @@ def part_a(ctx):
         raise vlib.MachineryError("Addrs.tla did not evaluate:\n" + "\n".join(res["out"].splitlines()[-30:]))
     d = json.load(open(p))
     ctx.notes.append("TLC generated %d socket-address vectors" % len(d["socks"]))
-    rep = vlib.go_harness(ctx, "pkg/socket", "TestVerifSockaddrTable", env={"VERIF_TABLES": p}, timeout=300)
+    rep = vlib.go_harness(ctx, "pkg/socket", "TestVerifSockaddrTable", env={"VERIF_TABLES": p}, timeout=300, netns=True)
     vlib.absorb(ctx, rep, "sockaddr")
 
 
